@@ -6,6 +6,7 @@ package chrootsim
 import (
 	"errors"
 	"fmt"
+	"github.com/sirupsen/logrus"
 	"io"
 	"os"
 	"path"
@@ -68,7 +69,11 @@ func SpellRoot(r *core.Rand, root string) string {
 
 var allOps = []string{"Create", "Mkdir", "MkdirAll", "Open", "OpenFile", "Remove", "RemoveAll", "Rename", "Stat", "Chmod", "Chown", "Chtimes", "ReadFile", "WriteFile", "Readdir"}
 var roots = []string{"/", "/proj", "/a/b", "/a/b/c", "/my.proj/x y", "/a/b.c/d"}
-var segAlphabet = []string{"", ".", "..", "..", "a", "b", "lib", "b.c", "x y", "..a", "a..", "proj", "etc", "secret", "f.sysl", "Proj", "A", "B", "My.Proj"}
+
+// (a backslash is an ordinary character of a name here: `..\secret` is one segment, a file of
+// that name inside the root; a wrapper that reads it as a separator has left the root)
+var segAlphabet = []string{"", ".", "..", "..", "a", "b", "lib", "b.c", "x y", "..a", "a..", "proj", "etc", "secret", "f.sysl", "Proj", "A", "B", "My.Proj",
+	`..\secret`, `a\..\..\secret\s.sysl`, `..\..\etc\e.sysl`}
 var errnos = map[string]syscall.Errno{"ENOENT": syscall.ENOENT, "EACCES": syscall.EACCES, "EIO": syscall.EIO, "ENOSPC": syscall.ENOSPC}
 
 // populate builds the same world on a disk: things inside the root and, around it,
@@ -359,6 +364,13 @@ func RunCase(c *Case, cnt core.Counters) []V {
 	populate(disk, c.Root)
 	populate(shadow, c.Root)
 	shadow.Record = false
+	if c.Seed%4 == 1 {
+		// at debug log level (sysl -v): diagnostics must not look at what they report on
+		old := logrus.GetLevel()
+		logrus.SetLevel(logrus.DebugLevel)
+		defer logrus.SetLevel(old)
+		cnt.Inc("cases_at_debug_log_level")
+	}
 	rootArg := c.Root
 	if c.RootSpell != "" {
 		rootArg = c.RootSpell
